@@ -136,6 +136,13 @@ check("C12",
   "Device model: write = create(truncate)+write_all (a torn write leaves a prefix), remove atomic; fresh wallet with the same keys at restart; MemIO is not cross-checked against saito-rust's RustIOHandler.",
   "DESIGN.md §3 C12")
 
+check("C20",
+  "explicit-state exploration of lock automata extracted from the source (every reachable function x held-lock-set state), bound to the code by trace inclusion of the real handlers' acquisitions recorded through a lock shim",
+  "model_checking",
+  "lockx parses all non-test source of saito-core, saito-rust, saito-spammer and saito-wasm with syn: every .read()/.write()/.lock() await site (also inside logging / select! macro arguments) is classified to a lock by the declared type of its receiver (completeness gate: classified sites = textual sites, else machinery error), guard lifetimes follow Rust's drop rules, calls are resolved by receiver type (unknown receivers: every method of that name, marked unconfirmed). The explorer visits every reachable (function, held-lock-set) pair, path-wise through branches and up to two loop iterations, following calls with the caller's held set. In every state: no shared lock (configs < blockchain < mempool < peers < wallet) is requested while a later one is held, unless every site nesting that pair does so under a common write-held outer lock; the same lock is not requested again in a conflicting mode; in saito-wasm an inversion is tolerated only under the global SAITO mutex. Binding: the real routing / verification / consensus handlers are run with hook H1 (recording lock shim) through the C11 world (honest script plus each hostile symbol, full and lite node) and the C15 sync worlds; every executed acquisition (source line, lock, mode, held set) must be a state of the model (else machinery error: the extraction is unsound), and any inversion the shim witnesses is a violation by itself.",
+  "Inversions that need an unconfirmed call link are listed in the evidence, not alarmed; branch conditions are not interpreted; the deadlock-freedom consequence is not searched separately on the product of task automata.",
+  "DESIGN.md §3 C20")
+
 NOT_YET = "check not built yet in this session (work in progress, see DESIGN.md §8 build order); nothing is claimed for it"
 NA = {}
 
@@ -143,7 +150,7 @@ props = [json.loads(l)["id"] for l in open("/verif/properties.jsonl")]
 hooks_commits = [l.strip() for l in open("/verif/bin/hook_commits.txt") if l.strip()]
 m = {
   "version": 1,
-  "setup_cmd": "cd /verif/rig && CARGO_NET_OFFLINE=true cargo build --offline",
+  "setup_cmd": "cd /verif/rig && CARGO_NET_OFFLINE=true cargo build --offline && cd /verif/lockx && CARGO_NET_OFFLINE=true cargo build --offline",
   "hooks": {
     "guard": "--cfg saito_verif",
     "enable": "rig/.cargo/config.toml sets rustflags = [--cfg saito_verif, --cfg fuzzing]; the rig depends on /repo/saito-core by path, so every check rebuilds saito-core from the working tree with the hooks compiled in",
@@ -152,6 +159,8 @@ m = {
     "add_only": True,
   },
   "engines": [
+    {"name": "lockx", "path": "lockx/", "serves_properties": ["C20"],
+     "kind_free_text": "syn-based extractor and explicit-state explorer of lock automata (model side of C20); its result is judged and bound to the code by vrig"},
     {"name": "vrig", "path": "rig/", "serves_properties": sorted(CHECKS),
      "kind_free_text": "explicit-state / bounded-exhaustive exploration of the real saito-core code from an external harness crate (in-memory InterfaceIO, manual clock, fixed keys, deterministic aHash)"}
   ],
